@@ -134,7 +134,7 @@ static int upipe_skip_control(struct upipe *upipe, int command, va_list args)
             if (unlikely(!offset_p)) {
                 return UBASE_ERR_INVALID;
             }
-            upipe_skip->offset = *offset_p;
+            *offset_p = upipe_skip->offset;
             return UBASE_ERR_NONE;
         }
         default:
